@@ -189,12 +189,15 @@ class Run(object):
             d.add_component(np.full(tuple(self.add_shape(rop[2])), 10 * tag, dtype=np.int64), c)
         elif name == "addDerived":
             froms = [self.ref(r) for r in rop[3]]
-            link = ComponentLink(froms, ComponentID(label_str(rop[2])), using=_first)
+            to = ComponentID(label_str(rop[2]))
+            link = ComponentLink(froms, to, using=_first)
             self.keep.append(link)
             if rop[1]:
+                # add_component(link, 'label'): add_component_link makes its own target id
                 d.add_component(link, label_str(rop[2]))
             else:
-                d.add_component(DerivedComponent(d, link), label_str(rop[2]))
+                # a ready-made DerivedComponent stored under its link's (brand-new) target id
+                d.add_component(DerivedComponent(d, link), to)
         elif name == "remove":
             d.remove_component(self.ref(rop[1]))
         elif name == "reorder":
